@@ -192,6 +192,44 @@ def correspond(ctx):
                     if el in survivors and not el.xpath("./c:spPr/a:solidFill/a:srgbClr[@val='123456']"):
                         ctx.fail("replace-data-lost-formatting", f"{ct.name}: formatting of a surviving series was lost by replace_data", {"chart_type": ct.name})
                         break
+    # replace_data on the PowerPoint-authored charts of the corpus: their series carry idx / order populations the
+    # writer itself never produces (highest idx different from highest order, gaps, permutations)
+    from harness import common as _c
+    decks = [d for d in _c.corpus_decks() if d.name.startswith(("cht-", "shp-access-chart"))]
+    for d in decks:
+        try:
+            cprs = Presentation(str(d))
+        except Exception:  # noqa
+            continue
+        for sl in cprs.slides:
+            for sh in sl.shapes:
+                if not getattr(sh, "has_chart", False):
+                    continue
+                chart = sh.chart
+                try:
+                    pk = type(chart.plots[0]).__name__
+                    ct = chart.chart_type
+                    nser = sum(len(pl.series) for pl in chart.plots)
+                except Exception:  # noqa
+                    continue
+                if nser == 0 or len(chart.plots) != 1:
+                    continue
+                if pk in ("XyPlot", "BubblePlot"):
+                    spec2, cd2 = lab.gen_xy_data(rng, bubble=(pk == "BubblePlot"))
+                    while len(spec2["series"]) <= nser:
+                        spec2, cd2 = lab.gen_xy_data(rng, bubble=(pk == "BubblePlot"))
+                else:
+                    spec2, cd2 = lab.gen_cat_data(rng, n_series=(1 if "PIE" in ct.name else nser + rng.choice([1, 2])))
+                try:
+                    chart.replace_data(cd2)
+                except Exception as e:  # noqa
+                    ctx.fail("replace-data-raises:" + ct.name, f"{d.name}: replace_data on a corpus {ct.name} chart raised {type(e).__name__}: {str(e)[:150]}", {"deck": d.name})
+                    continue
+                ctx.count("replace_data-on-corpus-chart")
+                try:
+                    check_chart(ctx, chart, spec2, ct, f"corpus:{d.name}", lines, impl, metas)
+                except NotImplementedError:
+                    ctx.count("corpus-chart-kind-not-wrapped-by-the-library")
     res = ctx.driver.run(lines)
     for case, i, m in zip(metas, impl, res):
         ctx.traces += 1
